@@ -36,11 +36,14 @@ Kinds == {
   K("bool", "coerce"), K("int", "coerce"), K("int8", "coerce"), K("uint64-max", "coerce"), K("float-nan", "coerce"), K("float-inf", "coerce"),
   K("complex", "coerce"), K("string", "coerce"), K("string-invalid-utf8", "coerce"), K("string-long", "coerce"), K("bytes", "coerce"),
   K("array", "coerce"), K("slice-any", "coerce"), K("slice-int", "coerce"), K("slice-nil-typed", "coerce"), K("named-slice", "coerce"),
+  \* typed-nil values of types with methods (Stringer, error), as values and as members of records; non-ASCII text
+  K("nil-ptr-stringer", "empty"), K("nil-ptr-error", "empty"), K("stringer-value", "coerce"), K("string-non-ascii", "coerce"),
+  K("map-nil-stringer-elems", "record"), K("struct-nil-stringer-fields", "record"),
   K("chan", "coerce"), K("func", "coerce"), K("time", "record-or-coerce"), K("json-number", "coerce"),
   K("json-empty-object", "empty"), K("json-object", "record"), K("json-array", "issue"), K("json-scalar", "issue"), K("json-null", "issue"), K("json-truncated", "issue"),
   K("form-valid", "record"), K("form-malformed", "issue"), K("query", "record"), K("env", "record") }
 
-Schemas == {"string", "int", "float", "bool", "time", "slice-int", "slice-struct", "struct", "struct-cap", "struct-long-key", "ptr-struct", "ptr-int", "custom", "preprocess"}
+Schemas == {"string", "string-all-tests", "slice-string-tests", "int", "float", "bool", "time", "slice-int", "slice-struct", "struct", "struct-cap", "struct-long-key", "ptr-struct", "ptr-int", "custom", "preprocess"}
 Positions == {"root", "field", "elem", "behind-ptr"}
 
 Rows == [kind : Kinds, schema : Schemas, pos : Positions]
